@@ -79,6 +79,7 @@ typedef struct atom_group_struct_tag {
     unsigned      hash_size; /* size of the hash table to store the atoms in */
     unsigned      atoms;     /* current number of atoms held */
     unsigned      nextid;    /* atom ID to use for the next atom */
+    unsigned      wrapped;   /* whether nextid has run through all ATOM_BITS bits (IDs may repeat) */
     atom_info_t **atom_list; /* pointer to an array of ptrs to atoms */
 } atom_group_t;
 
@@ -161,6 +162,7 @@ HAinit_group(group_t  grp,      /* IN: Group to initialize */
         grp_ptr->hash_size = hash_size;
         grp_ptr->atoms     = 0;
         grp_ptr->nextid    = 0;
+        grp_ptr->wrapped   = 0;
         if ((grp_ptr->atom_list = (atom_info_t **)calloc(hash_size, sizeof(atom_info_t *))) == NULL)
             HGOTO_ERROR(DFE_NOSPACE, FAIL);
     }
@@ -258,6 +260,26 @@ HAregister_atom(group_t grp,   /* IN: Group to register the object in */
     grp_ptr = atom_group_list[grp];
     if (grp_ptr == NULL || grp_ptr->count <= 0)
         HGOTO_ERROR(DFE_INTERNAL, FAIL);
+
+    /* Only ATOM_BITS bits of the counter go into an ID: after that many
+     * registrations the IDs repeat, and those still in use must be skipped */
+    if (grp_ptr->nextid > ATOM_MASK) {
+        grp_ptr->nextid  = 0;
+        grp_ptr->wrapped = 1;
+    }
+    if (grp_ptr->wrapped) {
+        if (grp_ptr->atoms > ATOM_MASK)
+            HGOTO_ERROR(DFE_NOSPACE, FAIL);
+        for (;;) {
+            atm_id  = MAKE_ATOM(grp, grp_ptr->nextid);
+            atm_ptr = grp_ptr->atom_list[ATOM_TO_LOC(atm_id, grp_ptr->hash_size)];
+            while (atm_ptr != NULL && atm_ptr->id != atm_id)
+                atm_ptr = atm_ptr->next;
+            if (atm_ptr == NULL)
+                break;
+            grp_ptr->nextid = (grp_ptr->nextid + 1) & ATOM_MASK;
+        }
+    }
 
     if ((atm_ptr = HAIget_atom_node()) == NULL)
         HGOTO_ERROR(DFE_NOSPACE, FAIL);
